@@ -2,6 +2,7 @@
 // Oracle: a reference of Python's slice semantics restricted by the throw rules of the statement;
 // sentinel-filled arrays for writes (exactly the designated positions change, source = snapshot before the call).
 #include "dsp.h"
+#include <climits>
 
 #include <initializer_list>
 
@@ -169,6 +170,52 @@ static void check_reads(int n, int i1, int i2, int st, bool use_end) {
         std::vector<T> v;
         auto sl = mk();
         for (auto it = sl.begin(); it != sl.end(); ++it) {
+            v.push_back(*it);
+        }
+        return A(v);
+    });
+    //the other iterator operators: postfix increment, dereference-and-advance, and walking back from end()
+    rd("iterate_slice_postfix", [&] {
+        std::vector<T> v;
+        auto sl = mk();
+        for (auto it = sl.begin(); it != sl.end(); it++) {
+            v.push_back(*it);
+        }
+        return A(v);
+    });
+    rd("iterate_slice_deref_postfix", [&] {
+        std::vector<T> v;
+        auto sl = mk();
+        auto it = sl.begin();
+        for (int k = 0; k < sl.size(); ++k) {
+            v.push_back(*it++);
+        }
+        if (it != sl.end()) {
+            v.push_back(T{});   //the walk must land on end()
+        }
+        return A(v);
+    });
+    rd("iterate_slice_backwards", [&] {
+        auto sl = mk();
+        std::vector<T> v(size_t(sl.size()));
+        auto it = sl.end();
+        for (int k = sl.size() - 1; k >= 0; --k) {
+            if (k % 2) {
+                --it;
+            } else {
+                it--;
+            }
+            v[size_t(k)] = *it;
+        }
+        if (sl.size() > 0 && it != sl.begin()) {
+            v.push_back(T{});
+        }
+        return A(v);
+    });
+    rd("iterate_const_slice_postfix", [&] {
+        std::vector<T> v;
+        auto sl = mkc();
+        for (auto it = sl.begin(); it != sl.end(); it++) {
             v.push_back(*it);
         }
         return A(v);
@@ -473,6 +520,11 @@ static void random_big(vh::Rng& r) {
     int st = int(r.range(-5, 5));
     if (r.below(4) == 0) {
         st = int(r.range(-n - 2, n + 2));
+    } else if (r.below(5) == 0) {
+        //extreme but legal strides: the slice then designates at most one element
+        const int ex[10] = {INT_MAX, INT_MAX - 1, INT_MAX - n / 2, 1 << 30, (1 << 30) + n, -INT_MAX, INT_MIN + 2, -(1 << 30), -(1 << 30) - n, INT_MIN};
+        st = ex[r.below(10)];
+        vh::obs_add("extreme_stride_cases");
     }
     check_reads<T>(n, i1, i2, st, false);
     using A = dl::base_array<T>;
